@@ -3,5 +3,7 @@ fn main() {
     let mut p = vec![];
     e.extend(f2::entries());
     p.extend(f2::dyn_peers());
+    e.extend(f3::entries());
+    p.extend(f3::dyn_peers());
     simcore::cli::main(e, p, simcore::profiles)
 }
